@@ -10,7 +10,8 @@ MODNAME = "c03"
 EXTRA_TARGETS = ["Props/C01.vo", "Props/C02.vo"]
 RULE = ("Same case families as C01 (a case = label list + engine options; every layer of getLayers() after Force.compute() is one "
         "placement problem). The fit_* family has both bounds with the layer fitting exactly / by 1/1024 / missing by 1/1024 / by half / "
-        "grossly, targets inside, left, right, on both sides or at the centre; bounds absent/default/None/negative/fractional elsewhere. "
+        "grossly, targets inside, left, right, on both sides or at the centre; bounds absent/default/None/negative/fractional/zero elsewhere; "
+        "a family with targets 1e9..1e12 beyond a bound (walls give way by 0.1..100 units). "
         "The layer width handed to the distributor is compared in every case. Non-trivial = some layer with >= 2 items in which an "
         "item is moved; distinct by input.")
 EXPLANATION = ("Walls are modelled as coded (soft, weight 1e10). C03_inside carries the explicit slack delta = sum|x-t|/1e10; "
@@ -19,12 +20,17 @@ EXPLANATION = ("Walls are modelled as coded (soft, weight 1e10). C03_inside carr
 
 def oracle(case, io):
     """If the items of a layer fit between the configured bounds, every item
-    lies inside them to within 0.5 (+ delta); if not, the separation of C01 is
-    kept in full and the layer is as long as it needs to be."""
+    lies inside them to within 0.5; if not, the separation of C01 is kept in
+    full and the layer is as long as it needs to be.
+    An item leaving a bound by more than 0.5 although the layer fits is tagged
+    as the known finding soft-wall-slack only if the excess is at most
+    delta_obs = sum|reported - target| / 1e10 (+1e-6); any other failure is
+    reported untagged and takes precedence."""
     if isinstance(io, dict) and "exc" in io:
         return "raised %s" % io["exc"]
     ns, ls, mn, mx = L.model_opts(case["py"]["opts"])
     eps = F(1, 10 ** 9)
+    known = None
     for k, layer in enumerate(io["layers"]):
         if not layer:
             continue
@@ -32,12 +38,23 @@ def oracle(case, io):
         need = L.needed_length(its, ns)
         fit = mn is None or mx is None or need <= F(mx) - F(mn)
         if fit:
-            tol = F(1, 2) + L.delta_obs(its) + eps
+            dobs = L.delta_obs(its)
             for it in its:
-                if mn is not None and F(it[3]) - F(it[1]) / 2 < F(mn) - tol:
-                    return "layer %d fits, but the item at %r (width %r) starts left of minPos %r" % (k, it[3], it[1], mn)
-                if mx is not None and F(it[3]) + F(it[1]) / 2 > F(mx) + tol:
-                    return "layer %d fits, but the item at %r (width %r) ends right of maxPos %r" % (k, it[3], it[1], mx)
+                out = []
+                if mn is not None:
+                    out.append((F(mn) - (F(it[3]) - F(it[1]) / 2), "starts left of minPos %r" % mn))
+                if mx is not None:
+                    out.append(((F(it[3]) + F(it[1]) / 2) - F(mx), "ends right of maxPos %r" % mx))
+                for dist, what in out:
+                    excess = dist - F(1, 2)
+                    if excess > eps:
+                        msg = "layer %d fits (needs %s), but the item at %r (target %r, width %r) %s by %s" % (
+                            k, float(need), it[3], it[0], it[1], what, float(dist))
+                        if excess <= dobs + F(1, 10 ** 6):
+                            if known is None:
+                                known = L.tagged(L.SOFT_WALL, msg + " (excess %.6g over 0.5 <= wall slack %.6g)" % (float(excess), float(dobs)))
+                        else:
+                            return msg
         else:
             for a, b in zip(its, its[1:]):
                 if F(b[3]) - F(a[3]) < L.gap(a, b, ns) - 1 - eps:
@@ -45,12 +62,17 @@ def oracle(case, io):
             ext = (F(its[-1][3]) + F(its[-1][1]) / 2) - (F(its[0][3]) - F(its[0][1]) / 2)
             if ext < need - 1 - eps:
                 return "layer %d does not fit, yet it is only %s long where %s is needed" % (k, float(ext), float(need))
-    return None
+    return known
+
+
+def matches_finding(finding, case, failure):
+    return L.matches(finding, failure, L.SOFT_WALL)
 
 
 LEVEL_TEXT = ("Machine-checked Coq theorems for ALL layers: if the layer fits between the bounds (or a bound is absent) every "
               "reported item lies inside them to within 1/2 + delta, delta = sum|x_i - t_i| / 1e10 (C03_inside), delta is "
-              "bounded explicitly (C03_delta_bound); with no fitting hypothesis the separation is kept and the layer is as "
+              "bounded explicitly (C03_delta_bound) and cannot be dropped (C03_inside_tight_refuted: targets 1e11 beyond maxPos "
+              "put a fitting layer 10 units outside; known finding soft-wall-slack); with no fitting hypothesis the separation is kept and the layer is as "
               "long as it needs (C03_spill); the layer width handed to the distributor (C03_layer_width); model tied to "
               "the code by differential execution on every run.")
 LEVEL_NOTE = ("Trusted: Coq kernel; extraction re-checked by vm_compute; the harness. Modelled, not verified: "
